@@ -23,6 +23,16 @@ def run(tier, seed):
     cov["states"] += sum(r["acc"] for r in r3)
     cov["value_product"] = dict(chars=c04.CHARS, max_len=maxlen, ml_lines=c04.ML_LINES, ml_max_lines=maxlines, cases=n3,
                                 slots=[s[0] for s in c04.SLOTS] + [s[0] for s in c04.ML_SLOTS], exhaustive=True)
+    # every single-byte edit of the byte corpus that is still accepted must keep its tokens (incl. octets that are not UTF-8)
+    from . import c02
+    rb = pool.run_tasks("checks.c02:byte_task", [(i, False, False, "c03") for i in range(len(c02.CORPUS))])
+    nb = sum(r["n"] for r in rb)
+    for r in rb:
+        viols.extend(r["violations"])
+    cov["transitions"] += nb
+    cov["traces_validated_against_impl"] += nb
+    cov["evaluations"] += nb
+    cov["byte_edits"] = dict(corpus=len(c02.CORPUS), executions=nb)
     lt = [(m, L, S) for m in ("bytes", "str", "file") for L in LINE_LENGTHS for S in ladder_sizes(tier)]
     rl = pool.run_tasks("checks.c03:ladder_task", sorted(lt, key=lambda t: -t[2]))
     nl = sum(r["n"] for r in rl)
